@@ -20,7 +20,8 @@ Record c16_case := {
   k_zshape : list Z;              (* its (authoritative) rank shapes *)
   k_skip : Z;                     (* innermost body skips points whose coordinate sum is 0 mod k_skip *)
   k_keys : list tkey;             (* traces registered before the run *)
-  k_thresholds : list Z }.        (* Metrics.setNumCachedUses values *)
+  k_thresholds : list Z;          (* Metrics.setNumCachedUses values *)
+  k_ref : bool }.                 (* the innermost body also does an untraced getPayloadRef *)
 
 Fixpoint n_pop (lv : list level) : nat :=
   match lv with
@@ -33,7 +34,7 @@ Definition z_in (c : c16_case) : option tree :=
   match n_pop (k_levels c) with O => None | S _ => Some (k_z c) end.
 
 Definition c16_events (c : c16_case) : list mev * option tree :=
-  let res := run (traced c) (k_zshape c) (n_pop (k_levels c)) (k_skip c) (k_levels c) 0 []
+  let res := run (k_ref c) (traced c) (k_zshape c) (n_pop (k_levels c)) (k_skip c) (k_levels c) 0 []
                  (k_inputs c) {| th_z := z_in c; th_lab := lab0 |} in
   (fst res, th_z (snd res)).
 
